@@ -75,18 +75,38 @@
                            `events_by_roles`, `regs_by_roles`,
                            `codegen_ops_match_model`, `eval_ops_match_model`.
 
+  T7 `frame_sound`         where the MACHINE CODE puts the memory T5 gives an
+                           activation (`Generated/C12Frame`, from
+                           `ModuleBuilder::define_function` /
+                           `FuncGen::entry_block` / every data object declared
+                           under `src/codegen/`): the decision `slotsInFrame`
+                           holds iff every arm of the match over
+                           `lir::ValueOrSlot` (guards included) backs a slot
+                           variable with a Cranelift explicit stack slot whose
+                           address is taken with `stack_addr`, and the JIT module
+                           holds no writable / thread-local data object. Then
+                           (`frame_slots_private`) for any number of activations
+                           — calls on any threads, recursive re-entries — and ANY
+                           interleaving of their slot writes and reads, each
+                           activation reads what it reads alone; with one block
+                           per module two activations interfere
+                           (`module_slot_interferes`). `slots_in_frame_on_tree`
+                           is the generated obligation.
+
   Not modelled (exercised by the stress harness only): data races inside the
   machine code itself (T5's machine is at the level of LIR instructions; that a
-  stack slot is memory of the running thread is trusted), the `symbol_table`
-  interner.
+  Cranelift explicit stack slot is memory of the running activation is trusted —
+  that slot variables ARE such slots is T7), the `symbol_table` interner.
 -/
 import RotoV.Lemmas.Conc
 import RotoV.Lemmas.ConcShare
 import RotoV.Lemmas.ConcExec
 import RotoV.Model.ConcInstr
+import RotoV.Lemmas.ConcFrame
 import RotoV.Generated.C12Bounds
 import RotoV.Generated.C12Sharing
 import RotoV.Generated.C12Globals
+import RotoV.Generated.C12Frame
 
 namespace RotoV.C12
 open RotoV.Conc
@@ -1281,6 +1301,77 @@ example :
     ∧ okInstr (fun _ => .sc) (.call 1 (some 3) false none (some 4) [.var 5]) = false := by decide
 
 end T6
+
+/-! ## T7 — the memory of an activation is in its frame
+
+`Exec.resolve` (T5) makes a stack slot named by call `i` memory of call `i`,
+fresh per activation. Whether the MACHINE CODE does that is decided in
+`src/codegen/mod.rs` (`ModuleBuilder::define_function`, `FuncGen::entry_block`),
+not in the LIR. `Generated/C12Frame` regenerates those decisions: what storage
+every class of LIR variable gets (per arm of the match over `lir::ValueOrSlot`,
+guards included), how the slot addresses are materialised, and every data object
+the code generator declares in the JIT module. -/
+
+section T7
+open Frame
+
+/-- **T7 `frame_slots_private`.** If every slot variable lives in the frame of
+its activation, then for ANY number of activations (calls on any threads,
+recursive re-entries), ANY interleaving of their writes and reads of slot
+variables and any initial memory, every activation reads exactly what it reads
+when its own events run alone. -/
+theorem frame_slots_private (st : Nat → Storage) (hst : ∀ v, st v = .frame)
+    (a : Nat) (m : Mem) (tr : List Ev) :
+    obs st a m tr = obs st a m (solo a tr) :=
+  obs_frame_agree st hst a tr m m (fun _ _ => rfl)
+
+/-- **refutation for module-level storage**: if a slot variable is backed by a
+block that exists once per module (a data object, however it is initialised),
+two activations interfere — activation 0 writes 1, activation 1 writes 2 into
+"its" local, activation 0 reads 2; alone it reads 1. -/
+theorem module_slot_interferes :
+    let st : Nat → Storage := fun _ => .module
+    let tr := [Ev.write 0 0 0 1, Ev.write 1 0 0 2, Ev.read 0 0 0]
+    obs st 0 (fun _ => 0) tr = [(0, 0, 2)] ∧ obs st 0 (fun _ => 0) (solo 0 tr) = [(0, 0, 1)] := by
+  decide
+
+/-- what the decision over the generated facts buys -/
+def FrameSound (f : Facts) : Prop :=
+  (∀ (pick : Nat → SlotArm), (∀ v, pick v ∈ f.slotArms ∧ (pick v).cls = .stackSlot) →
+    ∀ a m tr, obs (fun v => storageOfArm (pick v)) a m tr
+      = obs (fun v => storageOfArm (pick v)) a m (solo a tr))
+  ∧ (∀ d ∈ f.dataObjects, d.writable = some false ∧ d.tls = some false)
+  ∧ (f.hostInvokes ≠ [] ∧ ∀ i ∈ f.hostInvokes, i.retIsLocal = true ∧ i.clean = true)
+
+/-- **T7 `frame_sound`.** Under the decision, whichever arm of the code
+generator's match a slot variable takes (whatever its layout, whichever guard
+holds), its memory is private to the activation in every interleaving, the
+JIT module holds no writable or thread-local data object at all, and the return
+buffer the host hands to compiled code is a local of `RotoFunc::invoke`. -/
+theorem frame_sound (f : Facts) (h : slotsInFrame f = true) : FrameSound f :=
+  ⟨fun pick hp a m tr =>
+    frame_slots_private _ (fun v => slotsInFrame_arms f h (pick v) (hp v).1 (hp v).2) a m tr,
+   slotsInFrame_data f h, slotsInFrame_host f h⟩
+
+/-- the generated obligation for the current tree -/
+theorem slots_in_frame_on_tree : slotsInFrame Gen.C12Frame.facts = true := by decide
+
+/-- the decision is not vacuous: it accepts the recorded facts of the tree and
+rejects a code generator that backs slot variables above a size threshold with
+a writable data object of the module; for those facts the guarded arm's storage
+is `module`, the storage of `module_slot_interferes`. -/
+example :
+    slotsInFrame baseFacts = true ∧ slotsInFrame bigSlotsInDataFacts = false
+    ∧ (bigSlotsInDataFacts.slotArms.map storageOfArm).contains .module = true := by decide
+
+/-- **C12 on the current tree, frames included**: `c12_on_tree` with the trusted
+"stack slots of a call are memory of that call" reduced to the generated
+obligation `slots_in_frame_on_tree` plus Cranelift's meaning of an explicit
+stack slot. -/
+theorem frames_sound_on_tree : FrameSound Gen.C12Frame.facts :=
+  frame_sound _ slots_in_frame_on_tree
+
+end T7
 
 namespace T5Example
 open Lir Exec
